@@ -7,7 +7,7 @@ deleted entries are invalid) together with history_refines of Props/C03.v (lazy 
 Tie: (1) PrefixesMap alone against the extracted prefix-map model; (2) lock-heavy state histories
 against the extracted model + specification + in-harness reference incl. the lock multiset after every
 operation; (3) the contract-visible InstanceState operations with interrupts (commit / rollback of
-re-entrant calls, stale and forged ids) against an independent reference."""
+re-entrant calls, stale and forged ids) against the extracted InstanceState model and an independent reference."""
 import json
 from . import common as c
 from . import trie_common as tc
@@ -18,8 +18,10 @@ def run(ctx):
         "theorems are about the functional models (prefix trie, radix tree, state machine); the slab-based PrefixesMap and "
         "the arena of MutableTrie are tied by the differential correspondence (the real `slab` crate is replaced by a "
         "functional shim with the same LIFO key reuse)",
-        "the InstanceState layer (generation counter, entry_mapping, result encodings, migrate on resume) has no Coq model: "
-        "it is checked against an independent in-harness reference only (PARTIAL)",
+        "the InstanceState layer (generation counter, entry_mapping, iterators, result encodings, migrate on resume, "
+        "entry_read/write/size/resize) is modelled in coq/Trie/InstanceState.v on top of the trie machine; the extracted model is "
+        "the oracle of the `inst` histories (the in-harness reference is kept as a second opinion); energy and the 2^30 size "
+        "limits are not modelled",
         "interrupts are simulated as the scheduler drives them: suspend, make_fresh_generation, inner call, then resume on the "
         "new state with state_updated=true iff the inner call succeeded and touched the state, else on the old state",
         "energy accounting of these operations is not checked here (C02/C14)",
